@@ -1818,7 +1818,7 @@ def randomizer_bin_und(R, alpha, seed=None):
         # we can only use edges with connection to neither node
         i_intersect = np.intersect1d(alliholes, alljholes)
         # find which of these nodes are connected
-        ii, jj = np.where(R[np.ix_(i_intersect, i_intersect)])
+        ii, jj = np.where(np.triu(R[np.ix_(i_intersect, i_intersect)], 1))
 
         # if there is an edge to switch
         if np.size(ii):
